@@ -430,12 +430,16 @@ def run(world, tier, info, only=None):
                 for q, sq in w.fns.items():
                     if q.startswith(M) and not sq.get("alias_of") and any(c["c"] == p7 for c in sq["calls"]):
                         gq = Fn(w.mir(q))
+                        if q in EXEMPT7:
+                            # a helper extracted from an exempt function inherits that function's reason at this call site
+                            sites7.extend(True for _ in gq.calls("^" + re.escape(p7) + "$"))
+                            continue
                         mq = MustFacts(gq)
                         for cb, ct in gq.calls("^" + re.escape(p7) + "$"):
                             Fq = mq.at_entry(cb) or ()
                             sites7.append(any(a[0] == "called" and FLUSH.search(a[1]) for a in Fq))
                 ok = bool(sites7) and all(sites7)
-                why = "every caller flushes the pending indent before calling this helper"
+                why = "every caller flushes the pending indent before calling this helper (or is itself one of the flush / break / comment helpers)"
             ck.ob("R7", "flush-before-write:%s@%d" % (p7.split("::")[-1], _ordinal_call(g7, pushes7, bi)), ok, site(s7, t["l"]),
                   why if ok else "state.out is written while an indent may still be pending: the indent is flushed later with an absolute column, "
                   "so the cursor (and every anchor recorded after it on that line) is off by what was written here")
